@@ -131,8 +131,24 @@ def interleaved_partitions(g):
     return t, ops
 
 
+def binary_sort_keys(g):
+    """a binary sort key: the order is the order of the byte sequences ([9] < [10] < [200], [1] < [1 0])"""
+    r = g.r
+    ops = [dict(op="create_table", client="c", table="tbl", hash=dict(name="h", type="S"), range=dict(name="r", type="B"),
+                billing="PAY_PER_REQUEST", throughput=True)]
+    for b_ in r.sample(["\x09", "\x0a", "\xc8", "\x01", "\x01\x00", "\x64", "\x02", "\xff", ""], r.randrange(4, 9)):
+        ops.append(dict(op="put", client="c", table="tbl", item={"h": S("p"), "r": {"B": b_}}))
+    for fw in (True, False):
+        ops.append(dict(op="query", client="c", table="tbl", keycond="h = :h", names={}, values={":h": S("p")}, forward=fw))
+    ops.append(dict(op="query", client="c", table="tbl", keycond="h = :h AND r > :r", names={}, values={":h": S("p"), ":r": {"B": "\x09"}}))
+    return dict(name="tbl", schema=dict(hash=("h", "S"), range=("r", "B")), indexes=[]), ops
+
+
 def query_script(g):
     r = g.r
+    k0 = r.random()
+    if k0 < 0.1:
+        return binary_sort_keys(g)[1]
     if r.random() < 0.25:
         t, ops = interleaved_partitions(g)
     else:
@@ -159,8 +175,31 @@ def nt_reads(ops, obs):
     return False
 
 
+def retype_script(g):
+    """an index whose key attribute is declared N; a later index creation / UpdateTable tries to re-declare it as S"""
+    r = g.r
+    ops = [dict(op="create_table", client="c", table="tbl", hash=dict(name="h", type="S"), billing="PAY_PER_REQUEST", throughput=True,
+                attrs=[dict(name="n", type="N")], gsi=[dict(name="nix", hash=dict(name="n"), throughput=True)])]
+    base = dict(client="c", table="tbl")
+    for i in range(r.randrange(1, 4)):
+        ops.append(dict(op="put", item={"h": S("k%d" % i), "n": N(str(i)), "g": S("x")}, **base))
+    if r.random() < 0.5:
+        ops.append(dict(op="add_index", index="gix", hash=r.choice(["g", "n"]), range=r.choice(["", "n", "h"]), **base))
+    else:
+        ops.append(dict(op="update_table", attrs=[dict(name=r.choice(["n", "h", "g"]), type=r.choice(["S", "N", "B"]))],
+                        create=dict(name="gix", hash=dict(name="g"), throughput=True) if r.random() < 0.5 else None, **base))
+        if ops[-1]["create"] is None: del ops[-1]["create"]
+    ops.append(dict(op="describe_table", **base))
+    ops.append(dict(op="put", item={"h": S("k9"), "n": N("9"), "g": S("y")}, **base))
+    ops.append(dict(op="get", key={"h": S("k0")}, **base))
+    for ixn in ("nix", "gix"): ops.append(dict(op="scan", index=ixn, **base))
+    return ops
+
+
 def index_script(g):
     r = g.r
+    if r.random() < 0.12:
+        return retype_script(g)
     style = r.choice(["create", "helper", "late"])
     if style == "late":
         # the index is created after the data exists
